@@ -1237,6 +1237,55 @@ func harnessC19concurrent() {
 	vDone()
 }
 
+// ---------------------------------------------------------------------------------------------- C20: shutdown racing with AcceptAndServe
+// A brokered gRPC server is being started (AcceptAndServe, on the host or inside the plugin) while the client is
+// killed: all schedules up to the reversal bound, race detection on; on the host another AcceptAndServe is issued
+// after the shutdown has returned.
+func harnessC20serveShutdown() {
+	var o wOpts
+	o.grpc = true
+	o.mux = vChoice(2) == 1
+	o.allowed = 1
+	w := wSetup(o)
+	c, p := w.c, w.p
+	cp, err := c.Client()
+	vAssume(err == nil)
+	raw, err := cp.Dispense("test")
+	vAssume(err == nil)
+	_, err = raw.(wStub).Whoami()
+	vAssume(err == nil)
+	hb := cp.(*GRPCClient).broker
+	pbk := w.plugPl.impls[0].gb
+	mk := func(opts []grpc.ServerOption) *grpc.Server {
+		s := grpc.NewServer(opts...)
+		wRegisterUser(s, "test", &wImpl{tag: 1})
+		return s
+	}
+	side := vChoice(2)
+	served := make(chan struct{}, 1)
+	go func() {
+		if side == 1 {
+			vSetProc(p.id)
+			pbk.AcceptAndServe(31, mk)
+		} else {
+			hb.AcceptAndServe(31, mk)
+		}
+		served <- struct{}{}
+	}()
+	c.Kill()
+	vAssert(p.isDead, "C04: after Kill the plugin process has exited")
+	if side == 0 {
+		vCover("host-side")
+		<-served // the server started during the shutdown ends with the broker
+		hb.AcceptAndServe(32, mk)
+		vCover("after-shutdown")
+	} else {
+		vCover("plugin-side")
+	}
+	vCover("shut-down")
+	vDone()
+}
+
 // ---------------------------------------------------------------------------------------------- C16: the plugin side alone
 // A plugin process started with an arbitrary environment: cookie variable unset or an arbitrary string, multiplexing
 // variable unset / empty / "true" / another value, client certificate set or not; it serves net/rpc or gRPC, with plain
